@@ -1153,6 +1153,103 @@ def resolve_renamed(facts):
     return out
 
 
+# Struct fields the rules anchor on, each with the role that identifies it when its name has changed:
+#   ("indexed_in", fn)          the one field of the struct that method `fn` reads
+#   ("type", type-fragment)      the one field of that type
+#   ("type+word", type-fragment, word)   the one field of that type whose name contains `word`
+FIELD_ROLES = [
+    ("repr::var_order::VarOrder", "var_to_pos", ("indexed_in", "get")),
+    ("repr::var_order::VarOrder", "pos_to_var", ("indexed_in", "var_at_level")),
+    ("repr::unit_prop::UnitPropagate", "watch_list_pos", ("type+word", "Vec<std::vec::Vec<usize>>", "pos")),
+    ("repr::unit_prop::UnitPropagate", "watch_list_neg", ("type+word", "Vec<std::vec::Vec<usize>>", "neg")),
+    ("repr::unit_prop::SATSolver", "contains_pos_lit", ("type+word", "BitSet", "pos")),
+    ("repr::unit_prop::SATSolver", "contains_neg_lit", ("type+word", "BitSet", "neg")),
+    ("repr::unit_prop::SATSolver", "state_stack", ("type", "SatState>")),
+    ("repr::cnf::CnfHasher", "pos_lits", ("type+word", "Vec<std::vec::Vec<usize>>", "pos")),
+    ("repr::cnf::CnfHasher", "neg_lits", ("type+word", "Vec<std::vec::Vec<usize>>", "neg")),
+    ("repr::bdd::BddNode", "semantic_hash", ("type", "RefCell<std::option::Option<u128>>")),
+    ("repr::sdd::binary_sdd::BinarySDD", "semantic_hash", ("type", "RefCell<std::option::Option<u128>>")),
+    ("repr::sdd::sdd_or::SddOr", "semantic_hash", ("type", "RefCell<std::option::Option<u128>>")),
+    ("repr::bdd::BddNode", "data", ("type", "dyn std::any::Any")),
+    ("repr::sdd::binary_sdd::BinarySDD", "scratch", ("type", "dyn std::any::Any")),
+    ("repr::sdd::sdd_or::SddOr", "scratch", ("type", "dyn std::any::Any")),
+    ("repr::wmc::WmcParams", "var_to_val", ("type", "Vec<std::option::Option<(T, T)>>")),
+]
+
+
+def resolve_renamed_fields(facts):
+    """Like resolve_renamed, for struct fields: a field a rule names that is no longer there is looked up by its role
+    (FIELD_ROLES) and, when exactly one field fills it, given the expected name in the struct's declaration, in every
+    projection through that struct and in every struct literal."""
+    import copy as _copy
+    out = dict(facts)
+    lib = [u for u in facts if u.endswith("-lib.json")]
+    if not lib:
+        return out
+    j0 = facts[lib[0]]
+    adts = {norm(a["path"]): a for a in j0.get("adts", [])}
+    renames = {}                 # (adt, old) -> new
+    for adt, want, how in FIELD_ROLES:
+        a = adts.get(adt)
+        if not a or not a.get("variants"):
+            continue
+        flds = a["variants"][0]["fields"]
+        if any(f["name"] == want for f in flds):
+            continue
+        cands = []
+        if how[0] == "type":
+            cands = [f["name"] for f in flds if how[1] in (f.get("ty") or "")]
+        elif how[0] == "type+word":
+            cands = [f["name"] for f in flds if how[1] in (f.get("ty") or "") and how[2] in f["name"].lower()]
+        elif how[0] == "indexed_in":
+            for f in j0.get("fns", []):
+                if f["path"].rsplit("::", 1)[-1] == how[1] and norm(f["path"]).startswith(adt + "::") and "{closure" not in f["path"]:
+                    used = set()
+
+                    def scan(x):
+                        if isinstance(x, dict):
+                            if x.get("p") == "field" and norm(x.get("owner") or "") == adt:
+                                used.add(x.get("name"))
+                            for v in x.values():
+                                scan(v)
+                        elif isinstance(x, list):
+                            for v in x:
+                                scan(v)
+                    scan(f.get("blocks"))
+                    cands = sorted(used)
+        taken = {n for (a_, _), n in renames.items() if a_ == adt} | {o for (a_, o) in renames if a_ == adt}
+        cands = [c for c in cands if c not in taken and c not in [w for a_, w, _ in FIELD_ROLES if a_ == adt]]
+        if len(cands) == 1:
+            renames[(adt, cands[0])] = want
+    if not renames:
+        return out
+
+    def walk(x):
+        if isinstance(x, dict):
+            if x.get("p") == "field" and (norm(x.get("owner") or ""), x.get("name")) in renames:
+                x["name"] = renames[(norm(x["owner"]), x["name"])]
+            if x.get("agg") == "adt" and isinstance(x.get("fields"), list) and x.get("adt"):
+                a_ = norm(x["adt"])
+                x["fields"] = [renames.get((a_, n), n) for n in x["fields"]]
+            for v in x.values():
+                walk(v)
+        elif isinstance(x, list):
+            for v in x:
+                walk(v)
+    for u in facts:
+        j = _copy.deepcopy(facts[u])
+        for a in j.get("adts", []):
+            an = norm(a["path"])
+            for v in a.get("variants", []):
+                for f in v.get("fields", []):
+                    if (an, f["name"]) in renames:
+                        f["renamed_from"] = f["name"]
+                        f["name"] = renames[(an, f["name"])]
+        walk(j.get("fns"))
+        out[u] = j
+    return out
+
+
 class Program:
     def __init__(self, facts, meta=None):
         global CURRENT
@@ -1160,6 +1257,7 @@ class Program:
         self.meta = meta or {}
         facts = elide_forwarders(facts)
         facts = resolve_renamed(facts)
+        facts = resolve_renamed_fields(facts)
         self.units = facts
         self.fns = []
         self.by_npath = defaultdict(list)
